@@ -1916,7 +1916,11 @@ func genC06(g *h.G) {
 			p = "-"
 		}
 		n := free + 1 + g.Rng.Intn(70)
-		g.Emit("go.overflow", fmt.Sprint(capBits), p, writeItem(n))
+		it := writeItem(n)
+		if g.Rng.Intn(25) == 0 { // a unary count >= 2^63 never fits (before repair d72ec26 it wrote a single 0 and succeeded)
+			it = fmt.Sprintf("wn:%d", uint64(1)<<63+uint64(g.Rng.Int63()))
+		}
+		g.Emit("go.overflow", fmt.Sprint(capBits), p, it)
 		g.Count("overflow")
 	}
 	for i := 0; i < g.Scale(1500, 30000); i++ {
